@@ -145,6 +145,7 @@ def run(ctx):
     fields_rule(ctx, fv)
     refusal_rule(ctx, fv)
     entry_rule(ctx)
+    setters_rule(ctx)
     closed_list_rule(ctx, fv)
     # "presets change only the delimiter, -H only adds the column line": the header line is built with the same delimiter
     from . import c03, c05
@@ -225,9 +226,11 @@ def range_of(fv, blk):
     return None, None
 
 
-def ranges_rule(ctx):
+def ranges_rule(ctx, structs=None):
     seen = 0
     for (struct, opt), want in sorted(RANGES.items()):
+        if structs is not None and struct not in structs:
+            continue
         path = "<kmertools::args::%s as clap::Args>::augment_args" % struct
         fv = ctx.need("C15.R", path, UNIT)
         if fv is None:
@@ -256,6 +259,8 @@ def ranges_rule(ctx):
                       "option `%s` admits 0 (division by zero / empty histogram)" % opt, sp)
     # the same derive is compiled into the binary: its ranges must agree with the library's
     for (struct, opt) in sorted(RANGES):
+        if structs is not None and struct not in structs:
+            continue
         path = "<kmertools::args::%s as clap::Args>::augment_args" % struct
         a, b = ctx.view(path, UNIT), ctx.view(path.replace("kmertools::args", "kmertools::args"), "kmertools-kmertools-bin")
         if a is None or b is None:
@@ -793,3 +798,32 @@ def cli_arm_dep(ctx, prop, arms):
     fcli = ctx.view(CLI, UNIT)
     if fcli is not None:
         flow_rule(dep(ctx, prop, "C15"), fcli, arms=arms)
+    setters_rule(dep(ctx, prop, "C15"), arms)
+
+
+
+SETTER_ADTS = {"Oligo": ["composition::oligo::OligoComputer"], "Cgr": ["composition::cgr::CgrComputer", "composition::oligocgr::OligoCgrComputer"],
+               "Cov": ["coverage::CovComputer", "counter::CountComputer"], "Ctr": ["counter::CountComputer"], "Min": []}
+
+
+def setters_rule(ctx, arms=None, R="C15.S"):
+    """every `set_*` method of the computers stores its argument, unconditionally, in one field: an option handed to
+    a setter cannot be dropped or altered on the way (`if delim.trim().is_empty() { return }` loses the TSV preset)"""
+    adts = sorted(set(a for arm, l in SETTER_ADTS.items() if arms is None or arm in arms for a in l))
+    n = 0
+    for f in ctx.prog.workspace_fns():
+        p = f["npath"]
+        adt, _, name = p.rpartition("::")
+        if adt not in adts or not name.startswith("set_") or f.get("mac"):
+            continue
+        fv = ctx.view(p, f["unit"])
+        n += 1
+        ws = [x for x in fv.nodes if x.get("k") in ("assign", "assignop")]
+        branchy = [x for x in fv.nodes if x.get("k") in ("if", "match", "ret", "loop", "for", "while")]
+        ok = len(ws) == 1 and ws[0].get("k") == "assign" and fv.term(ws[0]["l"])[0] == "field" and fv.term(ws[0]["l"])[1] == ("self",) \
+            and fv.term(ws[0]["r"]) == ("param", 1) and not branchy
+        ctx.check(R, "%s::%s" % (adt.split("::")[-1], name), ok, "stores its argument in self.%s" % (fv.term(ws[0]["l"])[2] if ws else "?"),
+                  "`%s` does not simply store its argument (%d assignment(s), %d branch(es)): an option value can be "
+                  "dropped or changed between the command line and the computation" % (p, len(ws), len(branchy)), fv.fn["sp"])
+    if arms is None and n < 16:
+        ctx.fail(R, "setters:floor", "expected the 16 setters of the five computers, found %d" % n)
